@@ -35,4 +35,5 @@ int count_tags(char **tags);
 void upcase(std::string &s);
 void fill_name(char *s);
 int sumvec(const std::vector<int> &v);
+void iota(std::vector<int> &v);            // produces g_room elements
 int live(int which);        // 0 Obj alive, 1 Other alive, 2 pool slots in use, 3 Obj ever made
